@@ -279,6 +279,7 @@ package wal
 //@   props C05
 //@   requires WFS(s)
 //@   ensures[C05.notfound-below-first] FirstOf(s) != 0 && index < FirstOf(s) ==> result1 == types.ErrNotFound
+//@   ensures[C05.getlog-ok] result1 == nil ==> result0 != nil
 
 //@ func (*WAL).acquireState
 //@   inline
@@ -393,11 +394,13 @@ package wal
 //@   props C08 C14
 //@   requires w.metrics != nil && w.metaDB != nil
 //@   ensures[C14.set-closed] w.closed != 0 ==> result == types.ErrClosed
+//@   ensures[C20.stable-sets] (w.closed != 0 ==> counter("stable_sets") == old(counter("stable_sets"))) && (w.closed == 0 ==> counter("stable_sets") == old(counter("stable_sets")) + 1)
 
 //@ func (*WAL).Get
 //@   props C08 C14
 //@   requires w.metrics != nil && w.metaDB != nil
 //@   ensures[C14.get-closed] w.closed != 0 ==> result1 == types.ErrClosed && result0 == nil
+//@   ensures[C20.stable-gets] (w.closed != 0 ==> counter("stable_gets") == old(counter("stable_gets"))) && (w.closed == 0 ==> counter("stable_gets") == old(counter("stable_gets")) + 1)
 
 //@ func (*WAL).GetUint64
 //@   props C08
@@ -529,6 +532,7 @@ package wal
 //@   ensures[C05.rotate-keeps-view] result == nil ==> FirstOf(av(w.s)) == old(FirstOf(av(w.s))) && LastOf(av(w.s)) == old(LastOf(av(w.s)))
 //@   ensures[C03.rotate-new-tail-appendable] result == nil ==> !av(w.s).tail.sealed && av(w.s).tail.last == 0 && av(w.s).tail.base == old(LastOf(av(w.s))) + 1
 //@   ensures[C04.rotate-one-commit] result == nil ==> g_commits == old(g_commits) + 1
+//@   ensures[C20.rotations] counter("segment_rotations") == old(counter("segment_rotations")) + 1
 //@   ensures[C10.published-only-on-success] result != nil ==> av(w.s) == old(av(w.s))
 
 //@ -- first append to an empty log at an index other than the tail's BaseIndex:
@@ -604,3 +608,17 @@ package wal
 //@   ensures[C03.published-state-wf] av(w.s) != nil && WFS(av(w.s))
 //@   ensures[C05.store-last] old(w.closed) == 0 && result == nil && len(logs) > 0 ==> LastOf(av(w.s)) == logs[len(logs)-1].Index
 //@   ensures[C05.store-monotone] old(w.closed) == 0 && result == nil && len(logs) > 0 && old(LastOf(av(w.s))) > 0 ==> logs[0].Index == old(LastOf(av(w.s))) + 1
+//@   ensures[C20.append-counts] result == nil && len(logs) > 0 ==> counter("log_appends") == old(counter("log_appends")) + 1
+//@        && counter("log_entries_written") == old(counter("log_entries_written")) + uint64(len(logs))
+//@   ensures[C20.append-counts-failed] result != nil || len(logs) == 0 ==> counter("log_appends") == old(counter("log_appends"))
+//@        && counter("log_entries_written") == old(counter("log_entries_written")) && counter("log_entry_bytes_written") == old(counter("log_entry_bytes_written"))
+
+//@ -- GetLog: closed check, bounds by the view, one read counted per entry returned
+//@ func (*WAL).GetLog
+//@   props C05 C14 C20
+//@   requires w.metrics != nil && w.codec != nil && log != nil && av(w.s) != nil && WFS(av(w.s))
+//@   assigns *
+//@   ensures[C14.getlog-closed] old(w.closed) != 0 ==> result == types.ErrClosed
+//@   ensures[C05.getlog-below-first] old(w.closed) == 0 && FirstOf(av(w.s)) != 0 && index < FirstOf(av(w.s)) ==> result == types.ErrNotFound
+//@   ensures[C20.reads-closed] old(w.closed) != 0 ==> counter("log_entries_read") == old(counter("log_entries_read")) && counter("log_entry_bytes_read") == old(counter("log_entry_bytes_read"))
+//@   ensures[C20.reads] old(w.closed) == 0 ==> counter("log_entries_read") == old(counter("log_entries_read")) + 1
